@@ -45,10 +45,12 @@ SEP_A, SEP_B, SEP_C = "\x1e", "\x1d", "\x1f"
 CUSTOM_FORMAT = SEP_A + "{file_name}" + SEP_B + "{error.message}" + SEP_B + "{error.validator}" + SEP_C
 PRETTY_RULE = "-----------------------------"
 
-SCHEMA = {"properties": {"a": {"type": "integer"}, "b": {"type": "string"}, "c": {"maxLength": 1}}, "required": ["p", "q"]}
+SCHEMA = {"properties": {"a": {"type": "integer"}, "b": {"type": "string"}, "c": {"maxLength": 1}}, "required": ["p", "q"],
+          "type": ["object", "array", "null", "boolean"], "maxItems": 0}
 INVALID = {1: {"p": 1, "q": 1, "a": "x"}, 2: {"p": 1, "a": "x", "b": 1}, 3: {"a": "x", "b": 1, "q": 0},
-           4: {"a": "x", "b": 1}, 5: {"a": "x", "b": 1, "c": "toolong"}, 6: {}, 7: {"p": 0}}
-VALID = [{"p": 1, "q": 2}, {"p": 1, "q": 2, "a": 5, "b": "s"}, {"p": None, "q": [], "zz": 1}]
+           4: {"a": "x", "b": 1}, 5: {"a": "x", "b": 1, "c": "toolong"}, 6: {}, 7: {"p": 0},
+           8: 0, 9: "", 10: [1], 11: 1.5, 12: "null", 13: [None]}
+VALID = [{"p": 1, "q": 2}, {"p": 1, "q": 2, "a": 5, "b": "s"}, {"p": None, "q": [], "zz": 1}, None, False, True, []]
 BAD_SCHEMAS = [{"type": 12}, {"properties": {"a": {"minimum": "x"}}, "required": "p"}, {"items": 5, "type": "nope"}]
 
 
@@ -106,7 +108,7 @@ def build(fx, rng, schema_state, inst_states, schema_obj=None, draft_kw=None):
             v = rng.choice(VALID)
             insts.append((fx.write("inst_valid", json.dumps(v)), st, v))
         else:
-            v = INVALID[rng.choice([1, 2, 3, 4, 5, 6, 7])]
+            v = INVALID[rng.choice(sorted(INVALID))]
             insts.append((fx.write("inst_invalid", json.dumps(v)), st, v))
     return sp, sval, insts
 
@@ -284,7 +286,7 @@ def one(ctx, root, rng, n, schema_state, inst_states, mode, validator_opt=None, 
         stdin_text = None
         if stdin_mode:
             st = inst_states[0]
-            val = rng.choice(VALID) if st == "valid" else INVALID[rng.choice([1, 2, 4, 6])]
+            val = rng.choice(VALID) if st == "valid" else INVALID[rng.choice([1, 2, 4, 6, 8, 9, 10])]
             stdin_text = json.dumps(val) if st in ("valid", "invalid") else "{nope"
             insts = [("<stdin>", st, val if st in ("valid", "invalid") else None)]
         else:
